@@ -42,3 +42,13 @@ Definition run_vec (fuel : nat) (N : Z) (fs olap bmin : float) (Lmin Kdes : Z) (
   | Ok bs => pack bs (starts_vec FloatA c) (fun l k _ => O_vec FloatA c l k)
   | OracleMiss => fail 1 | OutOfFuel => fail 2 | NonFinite => fail 3
   end.
+
+(* new_ltf_plan *)
+From SK Require Import NewLtf.
+Definition run_new (fuel : nat) (N : Z) (fs olap bmin : float) (Lmin Kdes : Z) (logfact : float) (Jdes : Z)
+           (tpow texp tlog : list (float * float)) :=
+  let c : cfg FloatA := @mkCfg FloatA N fs olap bmin Lmin Kdes logfact in
+  match new_bins FloatA (tbl_lookup tpow) (tbl_lookup texp) (tbl_lookup tlog) fuel c Jdes with
+  | Ok bs => pack bs (starts_vec FloatA c) (fun l k _ => O_vec FloatA c l k)
+  | OracleMiss => fail 1 | OutOfFuel => fail 2 | NonFinite => fail 3
+  end.
